@@ -201,7 +201,11 @@ def gen_pairs(name, rng, n):
             else:
                 i = rng.choice(cuts)
                 b = a[:i]
-                if rng.random() < 0.5:
+                q = rng.random()
+                if q < 0.3:
+                    # ... or when one separator is exchanged for another (1.0~rc1 / 1.0^rc1, 2.0 / 2_0)
+                    b = a[:i] + rng.choice([c for c in "-+~_^." if c != a[i]]) + a[i + 1:]
+                elif q < 0.65:
                     # ... or when the tail is replaced by a short one (1-2-1 / 1-10, 1.0~rc1 / 1.0~2)
                     b = a[:i + 1] + rng.choice(["0", "1", "2", "10", "3", "01", "a", "rc1", "1.1", "0.5"])
         elif r < 0.5:
